@@ -137,6 +137,12 @@ impl<T> Out<T> {
     pub fn is_panic(&self) -> bool {
         matches!(self, Out::Panic(_))
     }
+    pub fn as_ok(&self) -> Option<&T> {
+        match self {
+            Out::Ok(t) => Some(t),
+            _ => None,
+        }
+    }
     pub fn ok(self) -> Option<T> {
         match self {
             Out::Ok(t) => Some(t),
